@@ -5,24 +5,24 @@ EXTENDS Integers, Sequences
 
 V(k, v) == [k |-> k, v |-> v]
 
-MCPoolA == << [pat |-> "a", sel |-> "s1", failAt |-> 1, hide |-> FALSE],
-              [pat |-> "a", sel |-> "s2", failAt |-> 0, hide |-> TRUE],
-              [pat |-> "*", sel |-> "s1", failAt |-> 2, hide |-> TRUE],
-              [pat |-> "b", sel |-> "s2", failAt |-> 0, hide |-> FALSE] >>
+MCPoolA == << [pat |-> "a", sel |-> "s1", failAt |-> 1, hide |-> FALSE, tag |-> "t1"],
+              [pat |-> "a", sel |-> "s2", failAt |-> 0, hide |-> TRUE, tag |-> "t2"],
+              [pat |-> "*", sel |-> "s1", failAt |-> 2, hide |-> TRUE, tag |-> "t3"],
+              [pat |-> "b", sel |-> "s2", failAt |-> 0, hide |-> FALSE, tag |-> "t4"] >>
 \* adjacent matching subscribers, all failing, wildcard first
-MCPoolB == << [pat |-> "*", sel |-> "s2", failAt |-> 1, hide |-> FALSE],
-              [pat |-> "a", sel |-> "s1", failAt |-> 1, hide |-> TRUE],
-              [pat |-> "a", sel |-> "s1", failAt |-> 2, hide |-> FALSE],
-              [pat |-> "b", sel |-> "s2", failAt |-> 1, hide |-> TRUE] >>
+MCPoolB == << [pat |-> "*", sel |-> "s2", failAt |-> 1, hide |-> FALSE, tag |-> "t1"],
+              [pat |-> "a", sel |-> "s1", failAt |-> 1, hide |-> TRUE, tag |-> "t2"],
+              [pat |-> "a", sel |-> "s1", failAt |-> 2, hide |-> FALSE, tag |-> "t3"],
+              [pat |-> "b", sel |-> "s2", failAt |-> 1, hide |-> TRUE, tag |-> "t4"] >>
 \* two adjacent subscribers matching "a", the first failing at once; a wildcard failing on its 2nd delivery
-MCPoolC == << [pat |-> "a", sel |-> "s1", failAt |-> 1, hide |-> TRUE],
-              [pat |-> "a", sel |-> "s2", failAt |-> 0, hide |-> FALSE],
-              [pat |-> "*", sel |-> "s1", failAt |-> 2, hide |-> FALSE] >>
+MCPoolC == << [pat |-> "a", sel |-> "s1", failAt |-> 1, hide |-> TRUE, tag |-> "t1"],
+              [pat |-> "a", sel |-> "s2", failAt |-> 0, hide |-> FALSE, tag |-> "t2"],
+              [pat |-> "*", sel |-> "s1", failAt |-> 2, hide |-> FALSE, tag |-> "t3"] >>
 \* selection id -> <<responseKey, fieldName, condition, form>>; s2 uses an alias and two fields; both have a key whose
 \* presence depends on the variable $hide of the subscriber's own request, written on a fragment spread in s1 and on
 \* an inline fragment in s2 (form "" = on the field itself)
-MCSelKeys == [ s1 |-> << <<"name", "name", "", "">>, <<"n", "n", "incl", "spread">> >>,
-               s2 |-> << <<"n", "n", "skip", "inline">>, <<"t", "name", "", "">> >> ]
+MCSelKeys == [ s1 |-> << <<"name", "name", "", "">>, <<"n", "n", "incl", "spread">>, <<"w", "with", "arg", "">> >>,
+               s2 |-> << <<"n", "n", "skip", "inline">>, <<"t", "name", "", "">>, <<"w", "withl", "arg", "list">> >> ]
 MCEvVals == [ e1 |-> [name |-> V("str", "one"), n |-> V("int", 1)],
               e2 |-> [name |-> V("str", "two"), n |-> V("int", 2)] ]
 
